@@ -13,7 +13,8 @@ checks, na = [], []
 for p in props:
     pid = p["id"]
     path = "/verif/mc/props/%s.py" % pid.lower()
-    if not os.path.exists(path):
+    ready = open("/verif/tools/ready.txt").read().split()
+    if not os.path.exists(path) or pid not in ready:
         na.append({"property_id": pid, "reason": "check not built yet (planned: DESIGN.md section 3 %s)" % pid})
         continue
     src = open(path).read()
